@@ -72,7 +72,8 @@ def oracle(policy, actions, recs, snap):
             want_exc = {'e': 'KeyError', 'c': 'CancelledError'}.get(oc)
             if ep != want_exc:
                 bad.append(('c10:exception-prop', f'completed ended {oc} but .exception is {ep}'))
-            if oc == 'v' and rp != ('ok', TG.VALUES[completed % len(TG.VALUES)](completed)):
+            if oc == 'v' and not (rp and rp[0] == 'ok' and TG.same_value(
+                    rp[1], TG.VALUES[completed % len(TG.VALUES)](completed))):
                 bad.append(('c10:result-prop', f'.result is {rp} for member {completed}'))
             if oc == 'n' and rp != ('ok', None):
                 bad.append(('c10:result-prop', f'.result is {rp} for a member that returned None'))
